@@ -236,6 +236,10 @@ func cliConcurrentScenarios() []cliScenario {
 		{Setup: []cliEv{ev("start", 0), ev("resp", 0)}, Threads: [][]cliEv{nil, {{K: "failwrite"}, ev("start", 0)}, {ev("resp", 0)}, {ev("start", 0)}}, DupIDs: true, Epilogue: "drain+close"},
 		// S15 the same with Close as the reason for the refusal
 		{Setup: []cliEv{ev("start", 0), ev("resp", 0)}, Threads: [][]cliEv{nil, {ev("start", 0)}, {ev("resp", 0)}, {{K: "close"}}}, Epilogue: "close"},
+		// the same id again on a recycled transaction object, a late duplicate of the first response in flight, and the
+		// clock as a place where Start can be overtaken (a user-supplied Clock is a call into foreign code)
+		{Setup: []cliEv{ev("start", 0), ev("resp", 0)}, Threads: [][]cliEv{nil, {ev("start", 0)}, {ev("resp", 0)}}, Epilogue: "drain+close", Opts: cliOpts{PoolFanout: true, ClockPoints: true}},
+		{Setup: []cliEv{ev("start", 0), ev("resp", 0)}, Threads: [][]cliEv{nil, {ev("do", 0)}, {ev("resp", 0), ev("resp", 0)}}, Epilogue: "drain+close", Opts: cliOpts{ClockPoints: true}},
 		// S17 two collector ticks overlap (a Collector may fire from a timer per tick; Agent.Collect is documented safe
 		// for concurrent use): A and B are due at the first, C and D only at the second
 		{Setup: []cliEv{ev("start", 0), ev("start", 1), {K: "tick", Arg: 4}, ev("start", 2), ev("start", 3)}, Threads: [][]cliEv{nil, {tickAfter}, {tickFar}}, Opts: cliOpts{NoRetransmit: true}, Epilogue: "drain+close"},
